@@ -413,7 +413,7 @@ def plan(tier):
         h = LcCheckTableau(n=3, order=order)
         h.parallel = True
         h.partial_ok = True
-        jobs.append((h, {"time_budget": 45 if q else 2 * 3600, "chunk_paths": 8, "chunk_s": 8.0}))
+        jobs.append((h, {"time_budget": 45 if q else 2400, "chunk_paths": 8, "chunk_s": 8.0}))
     if not q:
         for h in (IsLcEquivalent(n=4, mode="deterministic", with_lc_ops=True), Converter(n=4, api="lc_check")):
             h.parallel = True
